@@ -1,0 +1,19 @@
+//go:build verif
+
+// Contracts for package meta, read by /verif/govc. Comments only; compiled only with tag "verif".
+package meta
+
+// ---- C03 / C04: the name of a directory object ("key/") never resolves to the file "key": the path the attributes are read
+// from and written to keeps the trailing separator (the file system then refuses it when it is not a directory). The access
+// decision is taken for the name as it was sent; the attributes touched are those of that name.
+//@ func attrPath
+//@   pure
+//@   ensures {C03,C04} [the-name-of-a-directory-object-does-not-resolve-to-a-file] (strings.HasSuffix(object, "/") ==> ret0 == filepath.Join(bucket, object) + "/") && (!strings.HasSuffix(object, "/") ==> ret0 == filepath.Join(bucket, object))
+//@ func (XattrMeta) RetrieveAttribute
+//@   at-call xattr.Get {C03,C04} [attributes-are-read-at-the-attribute-path] requires $0 == attrPath(bucket, object)
+//@ func (XattrMeta) StoreAttribute
+//@   at-call xattr.Set {C03,C04} [attributes-are-written-at-the-attribute-path] requires $0 == attrPath(bucket, object)
+//@ func (XattrMeta) DeleteAttribute
+//@   at-call xattr.Remove {C03,C04} [attributes-are-removed-at-the-attribute-path] requires $0 == attrPath(bucket, object)
+//@ func (XattrMeta) ListAttributes
+//@   at-call xattr.List {C03,C04} [attributes-are-listed-at-the-attribute-path] requires $0 == attrPath(bucket, object)
